@@ -249,6 +249,8 @@ def run(pid):
         for err in traces.errors(v):
             ev = traces.failing_event(tr, err)
             own = OWNER.get(err["clause"]) or traces.owner(ev["a"], err["clause"], ev["exc"])
+            if pid == "C12" and err["clause"] in ("store", "file") and ev["a"]["op"] in ("insert", "insert_multiple") and not ev["exc"]:
+                own = "C12"      # a point that is not on file when its insert has returned is lost by a crash right after it
             if own != pid and not (pid == "C04" and err["clause"] in ("store",) and ev["a"]["op"] in ("insert", "insert_multiple", "reopen")):
                 other[own] = other.get(own, 0) + 1
                 continue
